@@ -16,6 +16,13 @@ From RU Require Import Base.Prelude Base.Utf8 Base.Utf8Facts Model.AsciiSet Gen.
 Definition front_auth (se : N) (pre : list N) : Prop :=
   exists A R, pre = A ++ [58; 47; 47] ++ R /\ nlen A = se.
 
+(* "scheme:" in front (no authority, no "/." marker) *)
+Definition front_noauth (se : N) (pre : list N) : Prop := exists A, pre = A ++ [58] /\ nlen A = se.
+Definition front_pre (se : N) (pre : list N) : Prop := front_auth se pre \/ front_noauth se pre.
+(* ... and a new path X that may follow it: without authority it must not start with "//" *)
+Definition front_for (se : N) (pre X : list N) : Prop :=
+  front_auth se pre \/ (front_noauth se pre /\ starts_with s_ss X = false).
+
 Lemma qf_text_above_st st q f : opt_clean (query_set st) q -> opt_clean T_FRAGMENT f ->
   forallb above_space (qf_text q f) = true.
 Proof.
@@ -59,6 +66,22 @@ Proof.
   cbn [pbind]. reflexivity.
 Qed.
 
+(* ... and behind "scheme:" when the path does not start with "//": no marker is inserted *)
+Lemma wqf_front st se ue hs he hi po pre X rem : front_for se pre X ->
+  with_query_and_fragment None CUrlParser st se ue hs he hi po (nlen pre) (pre ++ X) rem
+  = (' (s2, qs, fs) <~ parse_query_and_fragment None CUrlParser st se (pre ++ X) rem ;;
+     POk (mkUrl s2 se ue hs he hi po (nlen pre) qs fs)).
+Proof.
+  intros [Hfa|[(A & -> & <-) Hss]]; [apply wqf_front_auth; exact Hfa|].
+  unfold with_query_and_fragment.
+  assert (nlen (A ++ [58]) = nlen A + 1) as El by (rewrite nlen_app; reflexivity).
+  rewrite El. rewrite N.eqb_refl. rewrite <- El. rewrite nskipn_app_len, Hss.
+  assert (starts_with s_css (nskipn (nlen A) ((A ++ [58]) ++ X)) = false) as ->.
+  { rewrite <- app_assoc. rewrite nskipn_app_len. unfold s_css. cbn [app starts_with].
+    replace (58 =? 58) with true by reflexivity. exact Hss. }
+  cbn [negb passert pbind]. reflexivity.
+Qed.
+
 Lemma hier_P_Bs pre segs last : pre ++ path_text segs last = Bs pre segs ++ last.
 Proof. unfold Bs, path_text. rewrite <- !app_assoc. reflexivity. Qed.
 
@@ -69,7 +92,8 @@ Notation join b input := (parse_url dbg hp hpo hd None (Some b) input).
 (* ================= a reference with a path part ================= *)
 Theorem join_rel_path b pre common ra rb blast tl q f c rp' :
   path_start b = nlen pre -> b_before_query b = Bs pre (common ++ ra) ++ blast ->
-  cannot_be_a_base b = Some false -> st_is_file (b_st b) = false -> front_auth (scheme_end b) pre ->
+  cannot_be_a_base b = Some false -> st_is_file (b_st b) = false ->
+  front_for (scheme_end b) pre (47 :: segs_text (common ++ rb) ++ tl) ->
   no_slash blast = true -> forallb no_slash ra = true -> forallb not_wdl_seg ra = true ->
   forallb (seg_ok (b_st b)) rb = true -> seg_ok (b_st b) tl = true ->
   opt_clean (query_set (b_st b)) q -> opt_clean T_FRAGMENT f ->
@@ -104,7 +128,7 @@ Proof.
   rewrite loop_rel; [| assumption | assumption | assumption | assumption | assumption | apply qf_text_rest].
   cbn [pbind]. fold P.
   assert (P = pre ++ (47 :: segs_text (common ++ rb) ++ tl)) as EP by (unfold P, Bs; rewrite <- !app_assoc; reflexivity).
-  rewrite EP. rewrite wqf_front_auth by exact Hfa. rewrite <- EP.
+  rewrite EP. rewrite wqf_front by exact Hfa. rewrite <- EP.
   rewrite pqf_canon; [| reflexivity | exact Hq | exact Hf | exact Bq | exact Bf].
   cbn [pbind]. unfold url_with. rewrite Hps. reflexivity.
 Qed.
@@ -112,7 +136,7 @@ Qed.
 (* ================= "/" [?q][#f] ================= *)
 Theorem join_rel_root b pre q f :
   path_start b = nlen pre -> nfirstn (nlen pre) (ser b) = pre ->
-  cannot_be_a_base b = Some false -> st_is_file (b_st b) = false -> front_auth (scheme_end b) pre ->
+  cannot_be_a_base b = Some false -> st_is_file (b_st b) = false -> front_for (scheme_end b) pre [47] ->
   opt_clean (query_set (b_st b)) q -> opt_clean T_FRAGMENT f ->
   let P := pre ++ [47] in
   opt_le (qf_qs (nlen P) q) U32_MAX_P -> opt_le (qf_fs (nlen P) q f) U32_MAX_P ->
@@ -142,7 +166,7 @@ Proof.
   pose proof (loop_rel dbg st pre [] [] [] [] (qf_text q f) true Hnf eq_refl eq_refl eq_refl eq_refl (qf_text_rest q f)) as HL.
   cbn [dots_text segs_text map concat app] in HL |- *. rewrite HL. cbn [pbind].
   assert (Bs pre [] ++ [] = pre ++ [47]) as EP by (unfold Bs; cbn [app segs_text map concat]; rewrite !app_nil_r; reflexivity).
-  rewrite EP. rewrite wqf_front_auth by exact Hfa. fold P.
+  rewrite EP. rewrite wqf_front by exact Hfa. fold P.
   rewrite pqf_canon; [| reflexivity | exact Hq | exact Hf | exact Bq | exact Bf].
   cbn [pbind]. unfold url_with. rewrite Hps. reflexivity.
 Qed.
